@@ -41,6 +41,9 @@ fn main() {
 				eprintln!("watchdog: no result after {} s: inconclusive", limit);
 				std::process::exit(2);
 			});
+			if matches!(tier, Tier::Thorough) {
+				rt::DEBUG_BUDGET.store(6000, std::sync::atomic::Ordering::Relaxed);
+			}
 			let ctx = Ctx::new(&prop, tier, seed, props::level(&prop), &root);
 			let r = std::panic::catch_unwind(std::panic::AssertUnwindSafe(|| {
 				let v = props::regressions(&ctx);
